@@ -8,7 +8,7 @@ from .. import e2
 from .. import model as M
 from ..codec import src, unsrc
 from ..common import safe_repr, shard_items, tname
-from ..runner import Acc, parallel
+from ..runner import Acc, parallel, parallel_fresh
 from ..values import cp
 from ..subst import (carries, clean, generated, is_plain, subst_values, third_values, try_subst)
 from ..terms import E, fp, show, try_build
@@ -145,9 +145,11 @@ def examine(t, s, v, tier, rng, want):
         g = o[1]
         gen_ok = True
         cg = clean(r, g)
+        # C04: whatever the result generates carries v (whether or not it also validates: a
+        # generated value that the result itself rejects is C01's business)
+        if plain and "C04" in want and not carries(v, g):
+            out.append(("C04", f"generates-value-not-carrying-v|{tcls}|{tname(v)}", f"g={src(g)}"))
         if cg is True:
-            if plain and "C04" in want and not carries(v, g):
-                out.append(("C04", f"generates-value-not-carrying-v|{tcls}|{tname(v)}", f"g={src(g)}"))
             if plain and "C05" in want and clean(s, g) is not True:
                 out.append(("C05", f"widened-by-generated|{tcls}|{tname(v)}", f"g={src(g)}"))
             accepted.append(g)
@@ -178,13 +180,26 @@ def examine(t, s, v, tier, rng, want):
     return out, res
 
 
-def worker(shard, nshards, tier, seed, prop):
+def _has_alias(t):
+    from ..terms import subterms
+    return any(st[0] == "alias" for st in subterms(t))
+
+
+def worker(shard, nshards, tier, seed, prop, mode="shard"):
     acc = Acc()
     rng = e2.Scripted(seed)
     want = {prop}
     with e2.installed(rng):
         e2.self_test(rng)
-        for i, t in shard_items(all_terms(tier), shard, nshards):
+        todo = list(shard_items(all_terms(tier), shard, nshards))
+        if mode == "one-process":
+            # every term with a named alias in it (many share a name) plus every 9th other term in
+            # ONE process, forwards then backwards: what the substitutor keeps between calls meets
+            # another schema under the same name / value
+            allt = list(enumerate(all_terms(tier)))
+            todo = [(i, t) for i, t in allt if _has_alias(t) or i % 9 == 0]
+            todo = todo + todo[::-1]
+        for i, t in todo:
             s, err = try_build(t)
             if s is None:
                 acc.count("build_failed")
@@ -193,6 +208,8 @@ def worker(shard, nshards, tier, seed, prop):
             vals = subst_values(t, tier, placeholders=(prop == "C12"))
             if prop != "C12":
                 vals = [v for v in vals if is_plain(v)]
+            if mode == "one-process":
+                vals = vals[:40]
             nok = 0
             for v in vals:
                 acc.count("substitutions")
@@ -214,6 +231,10 @@ def worker(shard, nshards, tier, seed, prop):
 
 def run(prop, tier, seed):
     acc = parallel(worker, tier, seed, extra=(prop,), warm_pass=True)
+    one = parallel_fresh(worker, tier, seed, nshards=1, extra=(prop, "one-process"))
+    one.n = type(one.n)({"one_process:" + k: c for k, c in one.n.items()})
+    one.outcomes = set()
+    acc.merge(one)
     cov = {
         "states": acc.n["schemas"],
         "transitions": acc.n["substitutions"],
@@ -226,6 +247,8 @@ def run(prop, tier, seed):
                 "non-trivial = substitution succeeded",
         "exhaustive": True,
         "bounds": {"tier": tier, "gen_deviation_bound": GEN_D[tier]},
+        "one_process_pass": {"schemas_forwards_and_backwards": acc.n["one_process:schemas"],
+                             "substitutions": acc.n["one_process:substitutions"]},
     }
     return acc, cov, ["float leaves are compared with an absolute tolerance of 0.1 (coarsest grid)",
                       "nan is not in the alphabets"]
